@@ -326,7 +326,7 @@ def convLine (op ty rest : String) : String :=
       | .ok x _ =>
         match op with
         | "into" => showExceptSV (into_ tb t x)
-        | "intofrom" => showExceptSV (intoViaFrom tb t x)
+        | "intofrom" => showExceptSV (intoViaFrom tb genOptionNoneViaFrom t x)
         | _ =>
           match into_ tb t x with
           | .error e => e.show
